@@ -46,7 +46,8 @@ def profile(name, rng):
                  apply_unpicklable=0 if base['pool_hard'] else 0.25)
         if rng.random() < 0.4:
             # pure slot-governed histories without exits: exact conservation
-            base.update(slot_only=True, maxtasks=None, pool_hard=None, job_limits=None)
+            base.update(slot_only=True, maxtasks=None, pool_hard=None, job_limits=None,
+                        cb_raise=rng.choice([0, 0.3, 0.6]))
             base['weights'] = dict(apply=8, take=6, ack=8, ready=4, result=8,
                                    supervise=2, advance=1)
     elif name == 'c11':
